@@ -32,8 +32,10 @@ const (
 	// V1Dot1 is a constant for the NETCONF 1.1 version string.
 	V1Dot1      = "1.1"
 	v1Dot1Delim = `(?m)^##$`
-	v1Dot1Cap   = "urn:ietf:params:netconf:base:1.1"
-	v1Dot1Caps  = "" +
+	// v1Dot1ChunkHeader matches an RFC 6242 chunk header (LF '#' size LF).
+	v1Dot1ChunkHeader = `\n#[1-9][0-9]*\n`
+	v1Dot1Cap         = "urn:ietf:params:netconf:base:1.1"
+	v1Dot1Caps        = "" +
 		"<?xml version=\"1.0\" encoding=\"utf-8\"?>\n" +
 		"<hello xmlns=\"urn:ietf:params:xml:ns:netconf:base:1.0\">\n" +
 		"     <capabilities>\n" +
@@ -66,6 +68,7 @@ const (
 type netconfPatterns struct {
 	v1Dot0Delim        *regexp.Regexp
 	v1Dot1Delim        *regexp.Regexp
+	v1Dot1ChunkHeader  *regexp.Regexp
 	hello              *regexp.Regexp
 	capability         *regexp.Regexp
 	messageID          *regexp.Regexp
@@ -85,6 +88,7 @@ func getNetconfPatterns() *netconfPatterns {
 		netconfPatternsInstance = &netconfPatterns{
 			v1Dot0Delim:        regexp.MustCompile(v1Dot0Delim),
 			v1Dot1Delim:        regexp.MustCompile(v1Dot1Delim),
+			v1Dot1ChunkHeader:  regexp.MustCompile(v1Dot1ChunkHeader),
 			hello:              regexp.MustCompile(helloPattern),
 			capability:         regexp.MustCompile(capabilityPattern),
 			messageID:          regexp.MustCompile(messageIDPattern),
